@@ -395,9 +395,23 @@ def fixed_centres_oracle(run, c, lab, fields, step, replay):
         if lab.count(nm) != 1:
             continue
         owners = [b for b in allb if b.get("centers") and v["id"] in b["vars"] and b["kind"] in ("harmonic", "linear", "alb")]
-        if len(owners) != 1 or owners[0].get("chgc"):
+        if len(owners) != 1:
             continue
         b = owners[0]
+        if b.get("chgc"):
+            # moving centres (C06: centre(t) = c0 + (c1 - c0) min(t - t0, N)/N, t0 the first step of the simulation);
+            # only for restraints defined from the start, on scalar variables
+            if b not in c["biases"] or v["type"] != "z":
+                continue
+            i = b["vars"].index(v["id"])
+            lam = Fr(min(max(step - c["it0"], 0), b["N"]), b["N"])
+            want = float(Fr(b["c"][i]) + (Fr(b["tc"][i]) - Fr(b["c"][i])) * lam)
+            got = fields[lab.index(nm)]
+            run.dist("oracle:moving-centre")
+            if not close(got, want, OTOL):
+                run.violation("trajfields:moving-centre", "step %d column %s holds %r, the scheduled centre of bias b%d is %r"
+                              % (step, nm, got, b["id"], want), replay)
+            continue
         want = 1.5 if b["kind"] == "alb" else b["c"][b["vars"].index(v["id"])]
         want = [float(q) for q in want] if isinstance(want, (list, tuple)) else float(want)
         got = fields[lab.index(nm)]
@@ -500,6 +514,9 @@ def check_traj_case(run, c, k, impl_lines, scratch, model):
     calcs, misc = parse_dump(impl_lines)
     ncalc = sum(1 for e in c["events"] if e[0] == "step")
     replay = {"kind": "traj", "case": c}
+    if any(l.startswith("LOAD err=") and "err=ok" not in l for l in misc):
+        run.dist("traj:skipped-load-error")
+        return 0
     if len(calcs) != ncalc or any(cc["err"] != "ok" for cc in calcs) or any(l.startswith("CONFIG err=") and "err=ok" not in l for l in misc) \
             or any(l.startswith("SCRIPT err=") and "err=ok" not in l for l in misc):
         run.mismatch("trajrun", c, [l for l in impl_lines if "err=" in l][:6], "every step and configuration succeeds")
@@ -766,6 +783,9 @@ def gen_traj_case(r, tier):
             continue
         events.append(["step", newpos()])
     eforce = [r.choice([-1, 1]) * V.dyadic(r, 0.5, 3, 2) for _ in vars_]
+    if any(bb["kind"] == "alb" for bb in allb):
+        # an ALB bias cannot be restarted from a state file (C03 known finding load:alb): no restarts in such cases
+        events = [e for e in events if e[0] != "restart"]
     # repeated steps (after a boundary / restart) keep the engine force of the first evaluation
     prev = None
     for e in events:
@@ -1100,6 +1120,10 @@ def check_runavev_case(run, c, k, impl_lines, scratch, model):
                 m = sum(y) / L
                 dm = av[0] - m
                 dm -= math.floor(dm / PERIOD + 0.5) * PERIOD
+                if not (-PERIOD / 2 - 1e-9 <= av[0] < PERIOD / 2 + 1e-9):
+                    run.violation("runave:periodic-range", "step %d: reported average %r of a variable wrapped into [%g, %g)"
+                                  % (stp, av[0], -PERIOD / 2, PERIOD / 2), replay)
+                    continue
                 if abs(dm) > 1e-9:
                     run.violation("runave:periodic-wrap", "step %d: window %s of a variable with period %g: reported average %r, the values "
                                   "seen through the shortest image %s average to %r" % (stp, [w[0] for w in win], PERIOD, av[0], y, m), replay)
@@ -1309,7 +1333,11 @@ def check_label_case(run, c, k, impl_lines, scratch, model):
     # oracle: a reader must be able to tell which column is which
     run.dist("oracle:label-text")
     full = [p + n for p, n, w in cols]
-    if len(set(lab)) != len(lab):
+    cut = [(p + n)[:w] for p, n, w in cols]     # the file format: every label cut to the column width
+    if len(lab) != len(cut) or any(a != b for a, b in zip(lab, cut)):
+        bad = [(a, b) for a, b in zip(lab, cut) if a != b][:1] or [(lab, cut)]
+        run.violation("trajlabels:label-text", "label %r where the column is %r (cut to the column width: %r)" % (bad[0][0], full[lab.index(bad[0][0])] if bad[0][0] in lab and len(lab) == len(full) else "?", bad[0][1]), replay)
+    elif len(set(lab)) != len(lab):
         dup = [t for t in lab if lab.count(t) > 1][0]
         run.violation("trajlabels:duplicate-label", "the label line %s announces two columns as %r (names %s, bias %s)" % (lab, dup, c["names"], c["bname"]), replay)
     elif lab != full:
